@@ -363,6 +363,28 @@ func (g *G) generic(t hs.Type, d int) (hs.Expr, bool) {
 		if g.c.Lambdas && !g.c.off("lambda") && t.IsScalar() {
 			return g.lambdaCall(t, d), true
 		}
+	case 10:
+		if g.c.Wild && g.c.Options && t.IsScalar() && t.K != hs.KNull {
+			ot := hs.TOpt(t)
+			var recv hs.Expr = g.expr(ot, d-1)
+			if g.chance("wildNone", 30) {
+				// a none of the right type: the result of popping an empty list literal variable is not
+				// available here, so go through unwrap on an annotated let elsewhere; use last() of an empty slice
+				recv = hs.Call{Fn: hs.Member{X: hs.Call{Fn: hs.Member{X: hs.StrLit{V: ""}, Name: "split", T: hs.TFn(hs.TList(hs.TStr), hs.TStr)}, Args: []hs.Expr{hs.StrLit{V: ","}}, T: hs.TList(hs.TStr)}, Name: "pop", T: hs.TFn(hs.TOpt(hs.TStr))}, T: hs.TOpt(hs.TStr)}
+				if t.K != hs.KStr {
+					recv = g.expr(ot, d-1)
+				}
+			}
+			if g.chance("expect", 40) {
+				return hs.Call{Fn: hs.Member{X: recv, Name: "expect", T: hs.TFn(t, hs.TStr)}, Args: []hs.Expr{g.strLit()}, T: t}, true
+			}
+			return hs.Call{Fn: hs.Member{X: recv, Name: "unwrap", T: hs.TFn(t)}, T: t}, true
+		}
+	case 11:
+		if g.c.Wild && g.c.Strings && t.K == hs.KStr {
+			s := append(append([]string{}, uniPool...), "", "a")[g.pick("wildIdxStr", len(uniPool)+2)]
+			return hs.Index{X: hs.StrLit{V: s}, I: hs.IntLit{V: int64(g.intn("wildStrIdx", -4, 4))}, T: hs.TStr}, true
+		}
 	}
 	return nil, false
 }
@@ -379,15 +401,25 @@ func (g *G) intExpr(d int) hs.Expr {
 		var r hs.Expr
 		switch op {
 		case "/", "%":
-			if g.c.Fatal && g.chance("divZero", 2) && !(op == "%" && g.c.off("mod-zero")) {
+			if g.c.Wild && g.chance("wildDiv", 40) {
+				r = g.wildInt()
+			} else if g.c.Fatal && g.chance("divZero", 2) && !(op == "%" && g.c.off("mod-zero")) {
 				r = hs.IntLit{V: 0}
 				g.feat("div-zero")
 			} else {
 				r = g.nonZeroInt()
 			}
 		case "<<", ">>":
-			r = g.smallInt(0, 70)
+			if g.c.Wild && g.chance("wildShift", 40) {
+				r = g.wildInt()
+			} else {
+				r = g.smallInt(0, 70)
+			}
 		case "**":
+			if g.c.Wild && g.chance("wildPow", 40) {
+				r = g.wildInt()
+				break
+			}
 			// keep |result| < 2^53 while the float64-pow finding is open
 			if g.c.off("pow-large") {
 				l = g.smallInt(-6, 6)
@@ -438,6 +470,18 @@ func (g *G) intExpr(d int) hs.Expr {
 	return g.leaf(hs.TInt)
 }
 
+// wildInt: hostile right operands (zero, negative, huge) as a literal or a variable-free expression
+func (g *G) wildInt() hs.Expr {
+	pool := []int64{0, 0, -1, -2, -64, -65, 63, 64, 65, 1 << 40, -9223372036854775808, 9223372036854775807}
+	v := pool[g.pick("wildInt", len(pool))]
+	if g.chance("wildViaVar", 40) {
+		if e, ok := g.varRef(hs.TInt); ok {
+			return e
+		}
+	}
+	return hs.IntLit{V: v}
+}
+
 func (g *G) nonZeroInt() hs.Expr {
 	for {
 		e := g.intLit().(hs.IntLit)
@@ -454,10 +498,19 @@ func (g *G) floatExpr(d int) hs.Expr {
 	switch g.pick("floatForm", 8) {
 	case 0, 1, 2:
 		ops := []string{"+", "-", "*", "/"}
+		if g.c.Wild {
+			ops = append(ops, "**", "/")
+		}
 		op := ops[g.pick("floatOp", len(ops))]
 		l := g.expr(hs.TFloat, d-1)
 		var r hs.Expr
-		if op == "/" {
+		if g.c.Wild && (op == "/" || op == "**") {
+			pool := []float64{0, 0, 0.5, 2, 1e308, 1e-300, 3}
+			r = hs.FloatLit{V: pool[g.pick("wildF", len(pool))]}
+			if g.chance("wildFNeg", 30) {
+				r = hs.Prefix{Op: "-", X: r, T: hs.TFloat}
+			}
+		} else if op == "/" {
 			fl := g.floatLit().(hs.FloatLit)
 			if fl.V == 0 {
 				fl.V = 2
